@@ -290,6 +290,21 @@ def gen_cases(ctx: Ctx):
                 cases.append(dict(kind="enc", mode="product", params=ps, defaults=[0] * n, outputs=True,
                                   sleep_scale=0.02, sleep_mult=r.randrange(1, 5),
                                   scheds=[dict(scheduler="threads", workers=4)]))
+    if not ctx.quick:
+        # exhaustive small scope: 1..3 further probe instances next to the one that owns the swept argument, EVERY
+        # assignment of switched on / off, every pickling member of the scheduler dimension
+        import itertools
+        for extra in (1, 2, 3):
+            for mask in itertools.product((False, True), repeat=extra):
+                c = gen_encs(r, "product", [0], vector="none", decoys=0)
+                own = c["layout"][0][0]
+                plan = [[own, True, 1]] + [[own + 1 + k, en, r.choice([0, 1, 2])] for k, en in enumerate(mask)]
+                r.shuffle(plan)
+                plan.sort(key=lambda e: e[2])
+                c["pipe"] = plan
+                c["scheds"] = [SCHEDS[0], SCHEDS[3]] + PICKLED
+                c["outputs"] = (extra == 2)
+                cases.append(c)
     # process pool (slow to start): a few cases
     for j in range(ctx.budget(1, 6)):
         c = gen_enc(r, ["product", "custom"][j % 2], 2, "")
@@ -328,7 +343,24 @@ def gen_cases(ctx: Ctx):
     for j in range(ctx.budget(3, 10)):
         cases.append(dict(kind="bfe", n=r.randrange(3, 12), seed=r.randrange(1, 10 ** 6),
                           chunk=r.choice([None, 1, 2, 3, 5]), scale=0.003, scheds=pick_scheds(r, 2) + [PICKLED[j % 2]]))
+    # pyxel's own calibration problem on a pipeline with models that are switched off: candidates evaluated one by one
+    # here vs. through DaskBFE (every scheduler kind, the pickling ones always among them), and islands evolved by
+    # DaskIsland vs. the in-thread reference evolution
+    for j in range(ctx.budget(4, 12)):
+        cases.append(dict(kind="bfe", n=r.randrange(3, 9), seed=r.randrange(1, 10 ** 6), chunk=r.choice([None, 1, 2, 3]),
+                          fit=gen_fit(r), scheds=pick_scheds(r, 1) + [PICKLED[j % 2]]))
+    for j in range(ctx.budget(2, 6)):
+        cases.append(dict(kind="islands", n=r.randrange(2, 4), pop=r.randrange(7, 9), seed=r.randrange(1, 10 ** 6),
+                          bfe=(j % 2 == 0), chunk=r.choice([None, 2]), evolve=True, generations=1, fit=gen_fit(r),
+                          scheds=[SCHEDS[0], PICKLED[j % 2]]))
     return cases
+
+
+def gen_fit(r):
+    rows, cols = r.choice([(1, 2), (2, 2), (2, 3)])
+    return dict(pattern=[[r.randrange(1, 9) for _ in range(cols)] for _ in range(rows)],
+                target=[[r.randrange(0, 40) for _ in range(cols)] for _ in range(rows)],
+                off=[r.randrange(0, 3) for _ in range(r.choice([1, 1, 2]))])
 
 
 # ------------------------------------------------------------------------------------------ Coq emission
@@ -442,12 +474,13 @@ def classify(sub, is_mismatch):
     desc, s, p, files, raw = sub
     case, sched = desc["case"], desc["sched"]
     kind = case["kind"]
+    extra = dict(problem="model_fitting") if case.get("fit") else {}
     if kind == "islands":
         if case.get("evolve"):
-            return "calibration_outcome", dict(clause="calibration_outcome", scheduler=sched)
+            return "calibration_outcome", dict(clause="calibration_outcome", scheduler=sched, **extra)
         return "island_order", dict(clause="island_order")
     if kind == "bfe":
-        return "bfe", dict(clause="bfe", scheduler=sched)
+        return "bfe", dict(clause="bfe", scheduler=sched, **extra)
     if kind == "draw":
         wk = ">1" if sched.startswith("threads") and sched != "threads1" else "1"
         return "seeded_threads", dict(clause="seeded_threads", scheduler=sched.rstrip("0123456789"), workers=wk)
